@@ -3,6 +3,7 @@ patterns (DESIGN.md section 2, C09)."""
 
 import os
 import re
+import stat
 import subprocess
 
 from vlib import core
@@ -57,7 +58,7 @@ def case_strategy():
         dirs = sorted({"/".join(f.split("/")[:i]) for f in files for i in range(1, f.count("/") + 1)})
         links = {}
         for j in range(draw(st.integers(0, 3))):
-            kind = draw(st.sampled_from(["file", "dir", "dangling", "outside"]))
+            kind = draw(st.sampled_from(["file", "dir", "dangling", "outside", "loop"]))
             where = draw(st.sampled_from([""] + dirs))
             if kind == "file":
                 tgt = draw(st.sampled_from(files))
@@ -68,6 +69,14 @@ def case_strategy():
                 name = (where + "/" if where else "") + f"ld{j}"
                 if not (name + "/").startswith(tgt + "/") and not (tgt + "/").startswith(name + "/"):
                     links[name] = os.path.relpath(tgt, where or ".")
+            elif kind == "loop":
+                # a link that resolves to nothing: to itself, or a two-link cycle
+                base = (where + "/" if where else "")
+                if draw(st.booleans()):
+                    links[base + f"loop{j}.c"] = f"loop{j}.c"
+                else:
+                    links[base + f"cyc{j}a.c"] = f"cyc{j}b.c"
+                    links[base + f"cyc{j}b.c"] = f"cyc{j}a.c"
             elif kind == "dangling":
                 links[(where + "/" if where else "") + f"dang{j}.c"] = "nowhere.c"
             else:
@@ -91,7 +100,9 @@ def case_strategy():
         neg = pat.map(lambda p: "!" + p)
         other = st.sampled_from(["# a comment", "", "*", "!*/", "*.c", "!*.c", "**", "/*", "**/", "/**/"])
         patterns = draw(st.lists(st.one_of(pat, pat, pat, neg, other), min_size=0, max_size=5))
-        return {"files": files, "links": links, "patterns": patterns}
+        # a FIFO named like a source file (not a regular file, so not a member)
+        fifo = draw(st.sampled_from([None, None, None, "pipe.c", (dirs[0] + "/pipe.h") if dirs else "pipe.h"]))
+        return {"files": files, "links": links, "patterns": patterns, "fifo": fifo}
 
     return case()
 
@@ -175,6 +186,8 @@ def check_case(case, res: Result):
         # files outside the code base, one of them in a sibling directory whose name starts with the root's name
         core.write_tree(top, {"outside/o.c": "int o;\n", "root-old/stale.c": "int s;\n", "rootx/sub/y.cpp": "int y;\n"})
         os.symlink(os.path.join(root, case["files"][0]), os.path.join(top, "outside", "into.c"))
+        if case.get("fifo"):
+            os.mkfifo(os.path.join(root, case["fifo"]))
         rroot = os.path.realpath(root)
         cb = CodeBase(root, exclude_patterns=list(case["patterns"]))
         # every path spelling we can reach, grouped by what it resolves to
@@ -209,11 +222,29 @@ def check_case(case, res: Result):
             for real, sps in spellings.items():
                 answers = {}
                 for sp in sps[:6]:
-                    forms = [sp, os.path.join(os.path.dirname(sp), ".", os.path.basename(sp)), os.path.join(os.path.dirname(sp), "..", os.path.basename(os.path.dirname(sp)), os.path.basename(sp))]
+                    forms = [sp, os.path.join(os.path.dirname(sp), ".", os.path.basename(sp)), os.path.join(os.path.dirname(sp), "..", os.path.basename(os.path.dirname(sp)), os.path.basename(sp)),
+                             # spellings the operating system rejects unless sp is a directory / the segment exists
+                             sp + "/", sp + "/.", os.path.join(os.path.dirname(sp), "no_such_dir", "..", os.path.basename(sp))]
                     for wd in (root, top):
                         os.chdir(wd)
                         forms.append(os.path.relpath(sp, wd))
                         for form in forms:
+                            try:
+                                names_regular_file = stat.S_ISREG(os.stat(form).st_mode)
+                            except OSError:
+                                names_regular_file = False
+                            if not names_regular_file:
+                                # link loops, FIFOs, directories, `file.c/`, `missing/../file.c`: the spelling names no regular file
+                                try:
+                                    got_other = form in cb
+                                except Exception as e:
+                                    vs.append(make_violation(f"exception:{type(e).__name__}", cj, "a boolean", f"{type(e).__name__}: {e} for {form.replace(top, '<top>')!r}"))
+                                    return vs
+                                res.labels["spelling-that-names-no-regular-file"] += 1
+                                if got_other:
+                                    vs.append(make_violation("spelling:names-no-regular-file-but-member", cj, {"spelling": form.replace(top, "<top>"), "member": False}, True))
+                                    return vs
+                                continue
                             rf = os.path.realpath(form)
                             if rf != real:
                                 # `x/../x` is not the same file when x is a symbolic link: the operating
@@ -241,6 +272,8 @@ def check_case(case, res: Result):
                                 return vs
                         forms = forms[:3]
                 vals = set(answers.values())
+                if not vals:
+                    continue  # no spelling of this entry names a regular file (loop, FIFO, directory)
                 if len(vals) > 1:
                     vs.append(make_violation("spelling-dependent-membership", cj, {"path": os.path.relpath(real, top), "expected": expected[real]}, sorted((str(k[1]).replace(top, "<top>"), v) for k, v in answers.items())[:10]))
                     return vs
